@@ -4,19 +4,35 @@ import vlib, gen, skacli, derive, mapdrv
 from vlib import b
 
 
-def parse_lo_vcf(text):
+def _by_name(text, names):
+    """Genotype columns belong to the sample named in the #CHROM header line: returns a function that puts a record's
+    genotype fields into the order of `names` (the order the samples were given in). A header that does not name exactly
+    these samples leaves the columns as written (and the record count / relation checks then speak)."""
+    header = None
+    for line in text.splitlines():
+        if line.startswith("#CHROM"):
+            header = line.split("\t")[9:]
+    if names is None or header is None or sorted(header) != sorted(names) or len(set(header)) != len(header):
+        return lambda g: g
+    idx = [header.index(n) for n in names]
+    return lambda g: [g[i] for i in idx] if len(g) == len(idx) else g
+
+
+def parse_lo_vcf(text, names=None):
     recs = []
+    order = _by_name(text, names)
     for line in text.splitlines():
         if not line or line.startswith("#"):
             continue
         f = line.split("\t")
         recs.append({"pos": int(f[1]), "ref": ord(f[3]), "alts": [ord(x) for x in f[4].split(",") if x and x != "."],
-                     "gts": [(-1 if g == "." else int(g)) for g in f[9:]]})
+                     "gts": [(-1 if g == "." else int(g)) for g in order(f[9:])]})
     return recs
 
 
-def parse_indel_vcf(text):
+def parse_indel_vcf(text, names=None):
     recs = []
+    order = _by_name(text, names)
     for line in text.splitlines():
         if not line or line.startswith("#"):
             continue
@@ -24,7 +40,7 @@ def parse_indel_vcf(text):
         info = dict(x.split("=", 1) for x in f[6].split(";") if "=" in x)
         al = lambda x: [] if x == "-" else b(x)
         recs.append({"ref": al(f[3]), "alt": al(f[4]), "before": b(info.get("before", "")), "after": b(info.get("after", "")),
-                     "gts": f[9:]})
+                     "gts": order(f[9:])})
     return recs
 
 
@@ -46,10 +62,10 @@ def run_lo(sb, samples_recs, names, k, out_tag, threads=1, missing=None, ref=Non
     rd = lambda suffix: open(out + suffix).read() if os.path.exists(out + suffix) else None
     fas = rd("_snps.fas")
     res["snps"] = vlib.parse_fasta_text(fas) if fas is not None else ([], [])
-    res["vcf"] = parse_lo_vcf(rd("_snps.vcf") or "")
+    res["vcf"] = parse_lo_vcf(rd("_snps.vcf") or "", names)
     pg = rd("_pseudo_genomes.fas")
     res["pseudo"] = vlib.parse_fasta_text(pg) if pg is not None else ([], [])
-    res["indels"] = parse_indel_vcf(rd("_indels.vcf") or "")
+    res["indels"] = parse_indel_vcf(rd("_indels.vcf") or "", names)
     return res
 
 
@@ -72,10 +88,13 @@ def snp_events(run, tier, seed, tag, ks=None, n=None):
             ns = rng.randint(3, 10)
             lo_len = max(120, 8 * k)
             length = rng.randint(lo_len, max(lo_len + 40, 500 if tier == "quick" else 1500)) if k >= 9 else rng.randint(60, 110)
-            sc = derive.lo_snp_scenario(rng, k, ns, length, rng.randint(1, 10))
+            # every third scenario: a flank pair next to a site occurs two to four times with different middle bases (an
+            # ambiguity code of 2, 3 or 4 bases at that split k-mer in every sample) - still inside the stated precondition
+            amb = (ci % 3 == 1) and k >= 9
+            sc = derive.lo_snp_scenario(rng, k, ns, max(length, 12 * k) if amb else length, rng.randint(1, 4) if amb else rng.randint(1, 10), amb=(1 + (ci // 3) % 4) if amb else False)
             if sc is None:
                 continue
-            names = ["l%d_%d" % (ci, i) for i in range(ns)]
+            names = ["l%d_%d" % (ci, (7 * i + 3) % 11) for i in range(ns)]      # input order is not the alphabetical order
             sb.reset()
             ref = None
             if refmode:
@@ -178,7 +197,7 @@ def indel_events(run, tier, seed, tag, ks=None, fixed_len=None, n=None):
             sc = derive.lo_indel_scenario(rng, k, ns, length, nind, tandem=(ci % 3 == 2 and not one_class), fixed_len=fixed_len)
             if sc is None:
                 continue
-            names = ["i%d_%d" % (ci, i) for i in range(ns)]
+            names = ["i%d_%d" % (ci, (7 * i + 3) % 11) for i in range(ns)]      # input order is not the alphabetical order
             sb.reset()
             threads = rng.choice([1, 2, 3, 4])
             r = run_lo(sb, [[x["seq"] for x in recs] for recs in sc["samples"]], names, k, "i%d" % ci, threads=threads, missing=0.0)
